@@ -244,5 +244,139 @@ func benign(paths []string) {
 			})
 		}
 	}
+	if os.Getenv("MUTGEN_RENAMES") == "only" {
+		out = renames(paths)
+	} else if os.Getenv("MUTGEN_RENAMES") != "" {
+		out = append(out, renames(paths)...)
+	}
 	json.NewEncoder(os.Stdout).Encode(out)
+}
+
+// renames lists, per function, the consistent renaming of one receiver, parameter or local variable (every
+// occurrence of the name that is not a selector's field or a composite literal's key) - at most four names per
+// function, only names declared exactly once in it. A renaming that does not compile is dropped by the sweep.
+func renames(paths []string) []Mut {
+	var out []Mut
+	for _, path := range paths {
+		src, err := os.ReadFile(path)
+		if err != nil {
+			continue
+		}
+		fset := token.NewFileSet()
+		f, err := parser.ParseFile(fset, path, src, parser.ParseComments)
+		if err != nil {
+			continue
+		}
+		off := func(p token.Pos) int { return fset.Position(p).Offset }
+		for _, d := range f.Decls {
+			fd, ok := d.(*ast.FuncDecl)
+			if !ok || fd.Body == nil {
+				continue
+			}
+			fname := fd.Name.Name
+			decl := map[string]int{}
+			note := func(id *ast.Ident) {
+				if id != nil && id.Name != "_" {
+					decl[id.Name]++
+				}
+			}
+			if fd.Recv != nil {
+				for _, fl := range fd.Recv.List {
+					for _, n := range fl.Names {
+						note(n)
+					}
+				}
+			}
+			for _, fl := range fd.Type.Params.List {
+				for _, n := range fl.Names {
+					note(n)
+				}
+			}
+			ast.Inspect(fd.Body, func(n ast.Node) bool {
+				switch x := n.(type) {
+				case *ast.AssignStmt:
+					if x.Tok == token.DEFINE {
+						for _, l := range x.Lhs {
+							if id, ok := l.(*ast.Ident); ok {
+								note(id)
+							}
+						}
+					}
+				case *ast.RangeStmt:
+					if x.Tok == token.DEFINE {
+						if id, ok := x.Key.(*ast.Ident); ok {
+							note(id)
+						}
+						if id, ok := x.Value.(*ast.Ident); ok {
+							note(id)
+						}
+					}
+				case *ast.FuncLit:
+					for _, fl := range x.Type.Params.List {
+						for _, nm := range fl.Names {
+							note(nm)
+						}
+					}
+				}
+				return true
+			})
+			// occurrences that may be renamed: plain identifiers, not selector fields, not struct-literal keys
+			skip := map[*ast.Ident]bool{}
+			ast.Inspect(fd, func(n ast.Node) bool {
+				switch x := n.(type) {
+				case *ast.SelectorExpr:
+					skip[x.Sel] = true
+				case *ast.KeyValueExpr:
+					if id, ok := x.Key.(*ast.Ident); ok {
+						skip[id] = true
+					}
+				}
+				return true
+			})
+			n := 0
+			var names []string
+			for name, c := range decl {
+				if c == 1 && name != "err" && name != "ok" && name != "ctx" {
+					names = append(names, name)
+				}
+			}
+			sortStrings(names)
+			for _, name := range names {
+				if n >= 4 {
+					break
+				}
+				var ids []*ast.Ident
+				ast.Inspect(fd, func(nd ast.Node) bool {
+					if id, ok := nd.(*ast.Ident); ok && id.Name == name && !skip[id] {
+						ids = append(ids, id)
+					}
+					return true
+				})
+				if len(ids) < 2 {
+					continue
+				}
+				// one mutant = the whole function text with the occurrences replaced
+				from, to := off(fd.Pos()), off(fd.End())
+				text := []byte{}
+				last := from
+				for _, id := range ids {
+					text = append(text, src[last:off(id.Pos())]...)
+					text = append(text, []byte(name+"Rn")...)
+					last = off(id.End())
+				}
+				text = append(text, src[last:to]...)
+				out = append(out, Mut{File: path, Func: fname, Line: fset.Position(fd.Pos()).Line, Kind: "benign: local " + name + " renamed", Off: from, End: to, Old: name, New: string(text)})
+				n++
+			}
+		}
+	}
+	return out
+}
+
+func sortStrings(a []string) {
+	for i := 1; i < len(a); i++ {
+		for j := i; j > 0 && a[j] < a[j-1]; j-- {
+			a[j], a[j-1] = a[j-1], a[j]
+		}
+	}
 }
